@@ -8,15 +8,15 @@ from vf.props import clifam
 LEVEL = "model_checking"
 RULE = (
     "scenario = error ingredient {none, unparsable section, unbalanced bracket (fatal PRS), undefined Jinja variable (TMP), Jinja syntax "
-    "error (fatal TMP)} x fixable ingredient {none, LT01, CP01, both} x suppression {none, noqa: PRS,TMP, bare noqa, --ignore flag, "
+    "error (fatal TMP), and the first three inside the TAKEN branch of an if/else whose other branch is clean (a second, error-free variant)} x fixable ingredient {none, LT01, CP01, both} x suppression {none, noqa: PRS,TMP, bare noqa, --ignore flag, "
     "ignore= in config, warnings=PRS,TMP} x fix_even_unparsable {F,T} (+ warnings and runaway_limit {1,2} axes), every combination, each "
     "pushed through CLI fix/format on a path, CLI fix/format on stdin, sqlfluff.fix, and Linter.lint_paths(fix, apply_fixes). Model: "
     "unless fix_even_unparsable, a file whose unsuppressed baseline lint has any TMP/PRS error keeps its exact text; with runaway_limit=1 "
-    "and a fixable violation the file is unchanged and the fix exit status is 1. Every model case is replayed against every entry point. "
+    "and a fixable violation -- and whenever the linter's own 'Loop limit on fixes reached' warning is witnessed (also for a two-variant Jinja file whose variants need different numbers of passes) -- the file is unchanged and the fix exit status is 1. Every model case is replayed against every entry point. "
     "Non-trivial = the scenario has both an error ingredient and a fixable ingredient (something could wrongly be fixed)."
 )
 ASSUMPTIONS = ["'has a templating or parsing error' is measured by an unsuppressed baseline lint of the same text (disable_noqa, no ignore, no warnings)"]
-BOUND = {"quick": "all 5x4x6x2 combinations (error-free ones only unsuppressed) + warnings/loop-limit axes, 7 entry points each", "thorough": "same"}
+BOUND = {"quick": "all 8x4x6x2 combinations (error-free ones only unsuppressed) + warnings/loop-limit axes, 7 entry points each", "thorough": "same"}
 FLOOR = {"quick": 60, "thorough": 60}
 CHUNK = 1
 
@@ -31,7 +31,11 @@ def run_case(case):
     obs = clifam.observe(s, want=("fix", "format", "api", "lint_paths"))
     base = clifam.baseline(s)
     text = obs["text"]
-    has_err = any(c in ("TMP", "PRS") for c, _, _ in base)
+    # by construction every error ingredient is an error of the rendering actually taken; the baseline lint is a
+    # second witness (it alone would be blind to a change that also hides the error from lint)
+    has_err = s["err"] != "none" or any(c in ("TMP", "PRS") for c, _, _ in base)
+    if s["err"] != "none" and not any(c in ("TMP", "PRS") for c, _, _ in base):
+        res["fails"].append({"clause": "error_ingredient_not_reported_by_lint", "features": {"err": s["err"]}, "detail": {"baseline": [list(b) for b in base][:6]}})
     fixable = any(f for c, _, f in base if c not in ("TMP", "PRS"))
     outs = {
         "fix_path": obs["fix_path"].get("text"),
@@ -57,12 +61,20 @@ def run_case(case):
                     "detail": {"input": text, "output": out[:300]},
                 }
             )
-        if s.get("rl") == 1 and fixable and out != text:
-            res["fails"].append({"clause": "modified_after_loop_limit", "features": {"entry": ep}, "detail": {"input": text, "output": out[:300]}})
+        if ((s.get("rl") == 1 and fixable) or obs[ep].get("loop_limit")) and out != text:
+            res["fails"].append(
+                {
+                    "clause": "modified_after_loop_limit",
+                    "features": {"entry": ep, "templated_variants": s["fix"] == "var2", "limit_witnessed": bool(obs[ep].get("loop_limit"))},
+                    "detail": {"input": text, "output": out[:300]},
+                }
+            )
+        if obs[ep].get("loop_limit"):
+            res["stats"]["loop_limit_witnessed"] = res["stats"].get("loop_limit_witnessed", 0) + 1
         if ep.endswith("_stdin") and obs[ep].get("file_after") is not None and obs[ep]["file_after"] != text:
             res["fails"].append({"clause": "stdin_mode_wrote_file", "features": {"entry": ep}, "detail": {}})
-    if s.get("rl") == 1 and fixable:
-        for ep in ("fix_path", "fix_stdin"):
+    for ep in ("fix_path", "fix_stdin"):
+        if (s.get("rl") == 1 and fixable) or obs[ep].get("loop_limit"):
             if obs[ep]["rc"] != 1:
                 res["fails"].append({"clause": "loop_limit_not_reported_unfixable", "features": {"entry": ep}, "detail": {"rc": obs[ep]["rc"]}})
     # sanity for vacuity: with no error ingredient and a fixable one, fix must actually change the file
